@@ -1,7 +1,7 @@
 (* Pinned statements of C09 (generated once by tools/mkpins.py from coq/props/C09.v, then committed). *)
 From DV Require Import Model.Base Model.NameCheck Model.Parser Model.Header Model.Readers Model.Uncompress
   Model.Mutate Spec.NameSpec Spec.PacketSpec Spec.RecordSpec Proofs.Hoare Proofs.HeaderBits Proofs.InsertLemmas
-  Spec.PlainSpec Proofs.WalkValues Proofs.SetTtl Proofs.WalkSkip Proofs.PlainWf Proofs.InsertSpec props.C09.
+  Spec.PlainSpec Proofs.WalkValues Proofs.SetTtl Proofs.WalkSkip Proofs.PlainWf Proofs.InsertSpec Proofs.SetTtlInv props.C09.
 Check (C09_insert_appends : forall sec rr v it s',
   insert_core sec rr (v, it) = (s', Ok tt) ->
   exists p1 ins,
@@ -62,3 +62,12 @@ Print Assumptions C09_insert_effect.
 Check (C09_accepted_records_insertable : forall p0 sec seen off off1 seen1, bytes_ok p0 -> rr_wf p0 sec seen off off1 seen1 ->
   exists r x, rv_off r = off /\ record_at p0 r off1 /\ rdata_at p0 r x /\ (is_opt r = false -> plain_rr_ok (r, x))).
 Print Assumptions C09_accepted_records_insertable.
+Check (C09_set_ttl_on_decompressed : forall v it t s' qls qt lA lN lR r x,
+  dinv v -> (t < 4294967296)%N -> reading (pp_packet v) qls qt lA lN lR -> In (r, x) (lA ++ lN ++ lR) -> is_opt r = false ->
+  it_offset it <> None -> it_name_end it = rv_name_end r ->
+  m_set_ttl t (v, it) = (s', Ok tt) ->
+  dinv (fst s') /\ snd s' = it /\
+  exists lA' lN' lR' L1 L2, reading (pp_packet (fst s')) qls qt lA' lN' lR' /\
+    length lA' = length lA /\ length lN' = length lN /\ length lR' = length lR /\
+    lA ++ lN ++ lR = L1 ++ (r, x) :: L2 /\ lA' ++ lN' ++ lR' = L1 ++ (rv_with_ttl r t, x) :: L2).
+Print Assumptions C09_set_ttl_on_decompressed.
